@@ -446,15 +446,15 @@ def tbf(ctx, R):
     prog = ctx.prog
     tmod = prog.module("timestamp")
     d = tmod.assigns.get("_fractions_per_step")
-    if not isinstance(d, ast.Dict):
-        raise AnchorMissing("timestamp._fractions_per_step dict literal")
+    table = prog.try_fold(d, tmod) if d is not None else None
+    if not isinstance(table, dict):
+        raise AnchorMissing("timestamp._fractions_per_step: a table of constants")
     want = {"s": 0, "ms": 3, "us": 6, "ns": 9, "ps": 12}
     got = {}
-    for k, v in zip(d.keys, d.values):
-        kk = prog.try_fold(k, tmod)
-        vv = prog.try_fold(v, tmod)
+    lines = {prog.try_fold(k, tmod): k.lineno for k in d.keys} if isinstance(d, ast.Dict) else {}
+    for kk, vv in table.items():
         got[kk] = vv
-        where = "%s:%d" % (tmod.relpath, k.lineno)
+        where = "%s:%d" % (tmod.relpath, lines.get(kk, d.lineno))
         if kk not in want:
             R.undecided("timestamp._fractions_per_step[%r]" % kk, where, "unexpected unit")
             continue
